@@ -261,7 +261,7 @@ def r12_4(ctx, fx):
     parks = [n for n, s in fn.assigns() if "".join(s["lhs"][1:]).endswith(".next_notification")]
     ctx.anchor("R12.4", "poll_next: park into next_notification", len(parks), 1, cfg=fx.cfg)
     closes = [n for n, s in fn.aggregates(r"ConnectionEvent$", "CloseConnection")]
-    if not (take and ss and parks):
+    if not (take and ss):
         return
     t = take[0]
     # obligation: from the Some edge of the local that holds the notification (`let Some(notification) = notification else break`)
